@@ -115,14 +115,15 @@ class Harness(object):
     def build(self, cfg):
         from clastic import Application, Route, SubApplication
         shape, branch, mode, placement, methods = cfg
-        other = MODES[(MODES.index(mode) + 1) % 3]
+        other = common.fresh_str(MODES[(MODES.index(mode) + 1) % 3])
+        mode = common.fresh_str(mode)        # equal to clastic's constant, not the same object
         pat = pattern_for(shape, branch)
         ep = self.eps[shape]
         if placement == 'app':
             # the Route object has been bound before, into an application with another slash mode
             rt = Route(pat, ep, methods=methods)
             Application([rt], slash_mode=other)
-            Application([('/', Application([rt], slash_mode=MODES[(MODES.index(mode) + 2) % 3]))], slash_mode=other)
+            Application([('/', Application([rt], slash_mode=MODES[(MODES.index(cfg[2]) + 2) % 3]))], slash_mode=other)
             return Application([rt], slash_mode=mode), ''
         if placement == 'route':
             app = Application([], slash_mode=other)
